@@ -3,7 +3,7 @@
 Violation keys (one per root cause; the witness is normalised to character classes / derivations):
   ("attr", "not-identifier", <classes of the characters that break the identifier>)
   ("attr", "keyword"|"reserved", <the attribute name>)
-  ("attr", "source-lost", "empty-name"|<class seq>)     the JSON name is not recorded
+  ("attr", "source-lost", "empty-name"|"non-empty-name")     the JSON name is not recorded
   ("attr", "exception"|"parse-error", <exception type>)
   ("collision", "<derivation>~<derivation>")   two different sibling names, one attribute: the two
                                                derivations of the output character they share
@@ -56,6 +56,14 @@ def _gen_reason(parsed_attrs, gen_attr):
     if any(gen_attr == nfkc(p) for p in parsed_attrs):
         return "nfkc-normalisation"
     return "other"
+
+
+def _sib_model_keys(st):
+    """root-cause keys of a sibling set on which the MODEL loses a JSON name"""
+    keys = [("collision", k) for k in _sigkeys(st["sig"])]
+    if not keys and any(len(n) == 0 for n in st["names"] + st["req"]):
+        keys = [("attr", "source-lost", "empty-name")]
+    return keys
 
 
 def _exc_type(err):
@@ -153,7 +161,7 @@ def run(pid, tier, replay_file=None):
             return ("attr", clause, attr)
         if clause == "source-lost":
             return ("attr", clause, "empty-name" if name_seq is not None and not name_seq
-                    else (class_seq(name_seq) if name_seq else ""))
+                    else "non-empty-name")
         return ("attr", clause, "")
 
     # ---------------- names: function level, parser level, generated code
@@ -275,11 +283,8 @@ def run(pid, tier, replay_file=None):
             if not st["ok"]:
                 nontrivial["sib"] += 1
             if same and not st["ok"]:
-                keys = [("collision", k) for k in _sigkeys(st["sig"])]
-                if not keys:
-                    keys = [("attr", "source-lost", "empty-name")] if any(
-                        len(n) == 0 for n in st["names"] + st["req"]) else \
-                        [("siblings", "model", " | ".join(class_seq(n) for n in st["names"] + st["req"]))]
+                keys = _sib_model_keys(st) or \
+                    [("siblings", "model", " | ".join(class_seq(n) for n in st["names"] + st["req"]))]
                 for key in keys:
                     viol(key,
                          lambda: f"object with properties {r['names']!r} required {r['req']!r} gets "
@@ -300,12 +305,14 @@ def run(pid, tier, replay_file=None):
     for si, (st, obs) in enumerate(zip(titles, title_obs)):
         for mi, r in enumerate(obs):
             checked["title"] += 1
-            if r["cname"] is None or r["facts"] is None:
+            if r["classes"] is None:
                 viol(("class-name", "parse-error", _exc_type(r["err"])),
                      lambda: f"document with object title {r['title']!r} fails: {r['err']}",
                      lambda: dict(kind="title", states=[st], map=mi))
                 continue
-            f = r["facts"]
+            f = r["facts"] or dict(compiles=False, classdefs=None, imported=[])
+            if r["facts"] is None:
+                drift["title-module-not-generated"] += 1
             obs_names = {n for n, _ in r["classes"]}
             obs_clash = sorted(obs_names & set(f["imported"]))
             pred_compiles = st["clause"] in ("ok", "shadows")
@@ -330,14 +337,16 @@ def run(pid, tier, replay_file=None):
     # ---------------- documents of titled objects
     for si, (st, r) in enumerate(zip(docs, doc_obs)):
         checked["doc"] += 1
-        if r["slots"] is None or r["facts"] is None:
+        if r["classes"] is None:
             viol(("class-name", "parse-error", _exc_type(r["err"])),
                  lambda: f"document {json.dumps(r['doc'])[:200]} fails: {r['err']}",
                  lambda: dict(kind="doc", states=[st]))
             continue
         pred = nf.canon_listing(nf.predicted_listing(st))
-        real = nf.canon_listing(r["slots"])
-        f = r["facts"]
+        real = nf.canon_listing(r["slots"]) if r["slots"] is not None else None   # None: not located
+        f = r["facts"] or dict(compiles=False, classdefs=None, imported=[])
+        if r["facts"] is None:
+            drift["doc-module-not-generated"] += 1
         names_real = sorted(n for n, _ in r["classes"])
         decl_ok = f["compiles"] and sorted(f["classdefs"] or []) == names_real and not f.get("exec")
         same = pred == real and names_real == sorted(st["names"])
@@ -523,9 +532,9 @@ def _report_rejected(viol, attr_key, names, sibs, titles, docs, info, clause, wh
         seqs = " | ".join(class_seq(n) or "empty" for n in st["names"] + st["req"])
         if kind == "sib-gen":
             keys = [("generated", "siblings", info.get("reason") or "?")]
-        elif not st["ok"] and st["sig"]:
-            # the model loses a name here too (same derivations meet); only the spelling differs
-            keys = [("collision", k) for k in _sigkeys(st["sig"])]
+        elif not st["ok"] and _sib_model_keys(st):
+            # the model loses a name here too (same root cause); only the spelling differs
+            keys = _sib_model_keys(st)
         else:
             keys = [("siblings", "drift", seqs)]
         for key in keys:
